@@ -1,8 +1,8 @@
 """Per-property job plans (what each check runs), evidence levels, rules and assumptions."""
 
 
-def sess(profile, props, sessions, time_s, **kw):
-    args = {"profile": profile, "props": props, "sessions": sessions, "time": time_s}
+def sess(gen, props, sessions, time_s, **kw):
+    args = {"profile": gen, "props": props, "sessions": sessions, "time": time_s}
     args.update(kw.pop("args", {}))
     j = {"mode": "sess", "args": args, "timeout": time_s * 6 + 240}
     j.update(kw)
@@ -22,8 +22,8 @@ PLANS = {
         "floor": 2000,
     },
     "C02": {
-        "quick": [sess("file", "C02", 1200, 45)],
-        "thorough": [sess("file", "C02", 6000, 420)],
+        "quick": [sess("file", "C02", 1200, 30), job("c02grid")],
+        "thorough": [sess("file", "C02", 6000, 420), job("c02grid", timeout=3600), sess("file", "C02", 2000, 120, profile="relwrap")],
         "floor": 2000,
     },
     "C03": {
@@ -37,13 +37,13 @@ PLANS = {
         "floor": 2000,
     },
     "C05": {
-        "quick": [sess("alloc", "C05", 500, 30), sess("rootfill", "C05", 200, 10), sess("dirfill", "C05", 150, 15)],
-        "thorough": [sess("alloc", "C05", 6000, 420), sess("rootfill", "C05", 3000, 120), sess("dirfill", "C05", 3000, 180)],
+        "quick": [sess("alloc", "C05", 500, 30), sess("rootfill", "C05", 200, 10), sess("dirfill", "C05", 150, 15), job("c05cycle")],
+        "thorough": [sess("alloc", "C05", 6000, 420), sess("rootfill", "C05", 3000, 120), sess("dirfill", "C05", 3000, 180), job("c05cycle", timeout=3600), sess("alloc", "C05", 2000, 120, args={"builder": 1, "nolibwalk": 1})],
         "floor": 2000,
     },
     "C10": {
-        "quick": [sess("mixed", "C10", 400, 25), sess("mixed", "C10", 200, 25, args={"builder": 1, "nolibwalk": 1})],
-        "thorough": [sess("mixed", "C10", 5000, 300), sess("mixed", "C10", 3000, 300, args={"builder": 1, "nolibwalk": 1})],
+        "quick": [sess("mixed", "C10", 400, 20), sess("mixed", "C10", 200, 20, args={"builder": 1, "nolibwalk": 1}), sess("dirfill", "C10", 300, 20, args={"builder": 1, "nolibwalk": 1})],
+        "thorough": [sess("mixed", "C10", 5000, 300), sess("mixed", "C10", 3000, 300, args={"builder": 1, "nolibwalk": 1}), sess("dirfill", "C10", 4000, 240, args={"builder": 1, "nolibwalk": 1}), sess("alloc", "C10", 3000, 180)],
         "floor": 2000,
     },
     "C11": {
